@@ -155,6 +155,18 @@ static uint64_t ls_step(const ls_func *f, int fidx, uint32_t ref_index, const ui
     return h;
 }
 
+/* host calls made during instantiation (start function): same calls, same order, same arguments, right instance */
+static void ls_compare_init_traces(const char *what) {
+    int k, bad = ls_tr_impl.n != ls_tr_ref.n;
+    for (k = 0; !bad && k < ls_tr_ref.n; k++) {
+        const ls_ev *a = &ls_tr_ref.ev[k], *b = &ls_tr_impl.ev[k];
+        if (a->import != b->import || a->nargs != b->nargs || memcmp(a->args, b->args, (size_t)a->nargs * 8) != 0 || !b->inst_ok) bad = 1;
+    }
+    if (bad) { ls_mismatches++; printf("MISMATCH f=-1 name=%s what=start-trace in=- exp=none:%llx:nd0 got=none:%llx ntrace=%d/%d\n", what,
+                                       (unsigned long long)(ls_tr_ref.n ? ls_tr_ref.ev[0].args[0] : 0), (unsigned long long)(ls_tr_impl.n ? ls_tr_impl.ev[0].args[0] : 0), ls_tr_ref.n, ls_tr_impl.n); }
+    ls_tr_ref.n = ls_tr_impl.n = 0;
+}
+
 static uint8_t *ls_slurp(const char *p, size_t *n) {
     FILE *f = fopen(p, "rb"); uint8_t *b; long sz;
     if (!f) return NULL; fseek(f, 0, SEEK_END); sz = ftell(f); fseek(f, 0, SEEK_SET);
@@ -174,14 +186,17 @@ static int ls_init(const char *wasm_path, void *(*resolve)(const char *, const c
     if (!env.host_call) env.host_call = ls_host_ref;
     if (!env.fuel) env.fuel = 200000;
     if (!env.page_cap) env.page_cap = 65535; /* the runtime keeps the byte size in 32 bits: 65536 pages are a resource limit the spec permits */
+    ls_tr_ref.n = 0;
     ls_ref = wr_instantiate(ls_mod, &env);
     if (ls_ref->start_trap) { printf("ERROR reference instantiation trapped: %s\n", wr_trap_name(ls_ref->start_trap)); return 0; }
     memset(&sa, 0, sizeof sa); sa.sa_handler = ls_fatal;
     sigaction(SIGSEGV, &sa, NULL); sigaction(SIGBUS, &sa, NULL); sigaction(SIGFPE, &sa, NULL); sigaction(SIGALRM, &sa, NULL); sigaction(SIGILL, &sa, NULL); sigaction(SIGABRT, &sa, NULL);
     ls_in_impl = 1;
+    ls_tr_impl.n = 0; ls_cur_inst = &ls_inst;
     if (setjmp(ls_jb) == 0) mInstantiate(&ls_inst, resolve ? resolve : ls_resolve_default);
     else { printf("ERROR implementation trapped during instantiation\n"); return 0; }
     ls_in_impl = 0;
+    ls_compare_init_traces("instantiate");
     return 1;
 }
 
@@ -313,6 +328,70 @@ capped:
     { int oi, single = 0, dist = 0; for (oi = 0; oi < nops; oi++) { int q, c = 0; for (q = 0; q < 8; q++) if (opout[oi * 8 + q]) c++; dist += c; if (c <= 1) single++; }
       printf("BFSDONE states=%llu transitions=%llu depth_completed=%d capped=%d ops=%d op_outcomes=%d ops_single_outcome=%d\n", states, transitions, completed, completed < maxdepth && nfront != 0, nops, dist, single); }
     printf("DONE evals=%llu nontrivial=%d funcs=%d skipped=%llu weak=%llu traps=%llu mismatches=%llu\n", ls_evals, (int)states, nfuncs, ls_skipped, ls_weak, ls_traps, ls_mismatches);
+    return ls_mismatches ? 1 : 0;
+}
+
+/* ---- all operation sequences up to a length over TWO live instances of the module (C06) ----
+ * op.inst: 0 = instance A, 1 = instance B, 2 = "Instantiate B now".  Operations on B before it exists prune the
+ * sequence.  Every sequence runs on fresh instances; after every operation result/trap/trace (and memory, if
+ * LS_IMPL_MEM is defined) of the touched instance are compared with the reference, which keeps two separate
+ * instances: any state shared between the implementation's instances shows up as a mismatch. */
+typedef struct ls_op2 { int func; uint64_t args[4]; int inst; } ls_op2;
+static void (*ls_env_reset)(void); /* re-creates embedder-provided objects (imported memory/table/global) on both sides */
+static int ls_main_seq2(int argc, char **argv, const ls_func *funcs, int nfuncs, const ls_op2 *ops, int nops, int maxlen) {
+    static mInstance instB; wr_instance *refA = NULL, *refB = NULL; uint32_t *ridx; int k; unsigned long long nseq = 0, steps = 0; unsigned secs = 1200;
+    int idx[LS_MAXDEPTH]; int len;
+    if (argc < 2) { printf("ERROR usage\n"); return 2; }
+    if (argc >= 3) maxlen = atoi(argv[2]);
+    if (argc >= 4) secs = (unsigned)atoi(argv[3]);
+    mallopt(M_MMAP_THRESHOLD, 1 << 30); mallopt(M_TRIM_THRESHOLD, 1 << 30);
+    if (ls_env_reset) ls_env_reset();
+    if (!ls_init(argv[1], ls_user_resolve, ls_user_env)) return 2;
+    ridx = (uint32_t *)calloc((size_t)nfuncs, sizeof *ridx);
+    for (k = 0; k < nfuncs; k++) if (!wr_find_export(ls_mod, funcs[k].name, 0, &ridx[k])) { printf("ERROR no export %s\n", funcs[k].name); return 2; }
+#ifdef LS_IMPL_MEM
+    ls_compare_mem_flag = 1;
+#endif
+    alarm(secs);
+    for (len = 1; len <= maxlen; len++) {
+        int done = 0; for (k = 0; k < len; k++) idx[k] = 0;
+        while (!done) {
+            int j, haveB = 0, pruned = 0; unsigned long long mm = ls_mismatches;
+            /* static pruning: B used before it exists, or instantiated twice */
+            for (j = 0; j < len; j++) { const ls_op2 *o = &ops[idx[j]]; if (o->inst == 2) { if (haveB) pruned = 1; haveB = 1; } else if (o->inst == 1 && !haveB) pruned = 1; }
+            if (!pruned) {
+                wr_env e; if (ls_user_env) e = *ls_user_env; else memset(&e, 0, sizeof e);
+                if (!e.host_call) e.host_call = ls_host_ref; if (!e.fuel) e.fuel = 200000; if (!e.page_cap) e.page_cap = 65535;
+                wr_free_instance(refA); mFreeInstance(&ls_inst);
+                if (refB) { wr_free_instance(refB); refB = NULL; mFreeInstance(&instB); }
+                if (ls_env_reset) ls_env_reset();
+                ls_tr_ref.n = 0; refA = wr_instantiate(ls_mod, &e);
+                memset(&ls_inst, 0, sizeof ls_inst); ls_cur_inst = &ls_inst; ls_tr_impl.n = 0;
+                ls_in_impl = 1; if (setjmp(ls_jb) == 0) mInstantiate(&ls_inst, ls_user_resolve ? ls_user_resolve : ls_resolve_default); ls_in_impl = 0;
+                ls_ref = refA; ls_compare_init_traces("instantiate-A");
+                haveB = 0; nseq++;
+                for (j = 0; j < len && ls_mismatches == mm; j++) {
+                    const ls_op2 *o = &ops[idx[j]];
+                    if (o->inst == 2) {
+                        ls_tr_ref.n = 0; refB = wr_instantiate(ls_mod, &e);
+                        memset(&instB, 0, sizeof instB); ls_cur_inst = &instB; ls_tr_impl.n = 0;
+                        ls_in_impl = 1; if (setjmp(ls_jb) == 0) mInstantiate(&instB, ls_user_resolve ? ls_user_resolve : ls_resolve_default); ls_in_impl = 0;
+                        ls_ref = refB; ls_compare_init_traces("instantiate-B"); haveB = 1; steps++;
+                        continue;
+                    }
+                    ls_cur_inst = o->inst ? &instB : &ls_inst; ls_ref = o->inst ? refB : refA;
+                    ls_step(&funcs[o->func], o->func, ridx[o->func], o->args); steps++;
+                }
+                if (ls_mismatches != mm && ls_mismatches <= (unsigned long long)ls_max_report) { printf("HISTORY"); for (j = 0; j < len; j++) printf(" %d", idx[j]); printf("\n"); }
+                ls_cur_inst = &ls_inst; ls_ref = refA;
+            }
+            for (k = len - 1; k >= 0; k--) { if (++idx[k] < nops) break; idx[k] = 0; }
+            if (k < 0) done = 1;
+        }
+    }
+    alarm(0);
+    printf("BFSDONE states=%llu transitions=%llu depth_completed=%d capped=0 ops=%d op_outcomes=0 ops_single_outcome=0\n", nseq, steps, maxlen, nops);
+    printf("DONE evals=%llu nontrivial=%d funcs=%d skipped=%llu weak=%llu traps=%llu mismatches=%llu\n", ls_evals, (int)nseq, nfuncs, ls_skipped, ls_weak, ls_traps, ls_mismatches);
     return ls_mismatches ? 1 : 0;
 }
 
